@@ -56,6 +56,7 @@ class Prop(BaseProp):
                          "many-groups": lambda: b.many_groups(rng.choice([101, 150, 400])),
                          "long-line": lambda: b.long_line_value(rng.choice([8200, 9500, 70000]))}[shape]()
                 mod.items.insert(rng.randint(0, len(mod.items)), extra)
+                mod.items = b._fix_dangling(mod.items, 0)
                 return mod, b, "scale:" + shape
             res_clones = b.clones
             return mod, b, "random"
